@@ -52,6 +52,14 @@ def main():
             R.inconc("worker %s: %s" % (job["seed"], err))
             continue
         R.merge(res)
+    # operand classes the library was not written for (floats, Fraction, Decimal, True / False next to integer secrets): where an
+    # operator accepts one, its result is compared with Python's on the plain values
+    fam = [dict(seed="%d/C05/foreign/%d" % (common.seed(), s), props=[PROP], n=3000) for s in range(2 if tier == "quick" else 8)]
+    for job, res, err in shard.run_jobs("vf.progwork", "foreign_operands", fam, timeout=1800):
+        if err:
+            R.inconc("foreign-operand family: %s" % err[-300:])
+        else:
+            R.merge(res[PROP])
     R.assumptions = ["reference = vf/ref/model.py; DESIGN.md section 6 records where the property is read narrowly "
                      "(negative divisors, huge results congruent mod p, ~ within bitlength, boolean operators with boolean constants only)"]
     return R.finish(require_counters=("values_compared", "both_raise", "variables_compared"))
